@@ -51,6 +51,8 @@ def nontrivial_table(descr):
 
 
 def main(ctx):
+    # every lattice part once more under FP traps + warnings-as-errors (clean on the unchanged tree, see DESIGN section 0)
+    ctx.envstrict_all = True
     from mc.util import no_fd_leak
     import esutil
     from esutil import sfile, recfile
